@@ -1,5 +1,7 @@
 mod mathgen;
 mod colors;
+mod macro_cases;
+mod macrotick;
 mod filegen;
 mod mathops;
 mod textgen;
@@ -25,6 +27,7 @@ fn main() {
         }
         "text" => textgen::emit(seed, n, a.get(4).map(|s| s.as_str()).unwrap_or("")),
         "file" => filegen::emit(seed, n, a.get(4).map(|s| s.as_str()).unwrap_or("/tmp/vh_files"), a.get(5).and_then(|s| s.parse().ok()).unwrap_or(300)),
+        "macros" => macrotick::emit(seed, n),
         "mathone" => {
             let op: i64 = a[2].parse().unwrap();
             let args: Vec<f64> = a[3..].iter().map(|s| s.parse().unwrap()).collect();
